@@ -8,7 +8,15 @@ RULE = ("form: one Hash call judged against 'v1_' + tag + '_' + hex(BLAKE3(canon
 EXHAUSTIVE = {"quick": False, "thorough": True}
 TRUSTED_BASE = ["collision-freeness of BLAKE3 is a hypothesis (Function.Injective blake) of the separation theorem, not an axiom",
                 "Base/Blake3.lean (Lean BLAKE3) is used by the judge and compared with the vendored Go BLAKE3 through the form cases"]
-ASSUMPTIONS = ["inputs are ASCII", "BLAKE3 has no collisions among the inputs explored (hypothesis of hash_inj)"]
+ASSUMPTIONS = ["inputs are ASCII", "BLAKE3 has no collisions among the inputs explored (hypothesis of hash_inj)",
+               "hash_inj states the double-stranded case on the strand-closed alphabet (normalised letters among the 15 IUPAC codes: no U under DNA, no Z), "
+               "where 'equal up to strand' is an equivalence; hash_inj_general covers every accepted input with the conclusion "
+               "'some strand of one equals, up to rotation, some strand of the other'"]
+PARTIAL = ["all clauses are proved at full strength for hashSpec = the Hash model whose rotation step is the arg-min least rotation "
+           "(Props/C05: hash_inj, hash_inj_general, hash_same_molecule, hash_form, hex_len, reject_type, reject_letter, reject_ds_protein - the "
+           "rejections for every rotation function). For the circular cases, identifying the code's rotation step (Booth-loop model) with the "
+           "arg-min is C12's booth_least (Props/C12Booth.lean, other worker); until then hash = hashSpec rests on the correspondence. "
+           "Remove this entry when booth_least is proved."]
 TIMEOUT_MS = 120000
 
 PROT = "ACDEFGHIKLMNPQRSTVWYUO*BXZ"
@@ -32,6 +40,12 @@ def cases(seed, tier):
         ch = chr(o)
         for ty in ("DNA", "RNA", "PROTEIN"):
             yield ["form", "AC" + ch + "G", ty, "false", "false"]
+    # letters outside ASCII (homoglyphs of valid letters, accented and other scripts): must be rejected too.
+    # (U+017F and U+0131 are left out: Unicode upper-casing folds them to the ASCII letters S and I.)
+    for ch in ["\u00e9", "\u03a9", "\u0410", "\u0391", "\uff21", "\u00c5", "\u0421", "\u0422", "\u03a4", "\u00df", "\u212a", "\u4e2d", "\U0001d400", "\u00a0", "\u200b"]:
+        for ty in ("DNA", "RNA", "PROTEIN"):
+            yield ["form", "AC" + ch + "G", ty, "false", "false"]
+            yield ["form", ch, ty, "true", "false"]
     for ty in ("dna", "", "Protein", "XNA"):
         yield ["form", "ACGT", ty, "false", "false"]
     for w in ("MKV", "ACGT"):
